@@ -68,13 +68,21 @@ func Clone(kids []*S) []*S {
 }
 
 // Nodes lists every node of the forest in pre-order (key leaves and case wrappers excepted).
-func Nodes(kids []*S) []*S {
+func Nodes(kids []*S) []*S { return nodesExcept(kids, nil) }
+
+// (the key leaf of a list is its first child: it is recognised by position, not by its name,
+// so that renamed schemas may call other leaves "k" too)
+func nodesExcept(kids []*S, key *S) []*S {
 	var out []*S
 	for _, k := range kids {
-		if !(k.Kind == "leaf" && k.Name == "k") && k.Kind != "case" {
+		if k != key && k.Kind != "case" {
 			out = append(out, k)
 		}
-		out = append(out, Nodes(k.Kids)...)
+		if k.Kind == "list" && len(k.Kids) > 0 && k.Kids[0].Kind == "leaf" && k.Kids[0].Name == k.Key {
+			out = append(out, nodesExcept(k.Kids, k.Kids[0])...)
+		} else {
+			out = append(out, nodesExcept(k.Kids, key)...)
+		}
 	}
 	return out
 }
